@@ -574,6 +574,9 @@ func main() {
 	b.WriteString(translateFunc(tutil.method("", "lowBoundary"), "indexLowBoundary", nil))
 	b.WriteString(translateFunc(hubGo.method("", "substractAndRoundDownBlocks"), "substractAndRoundDownBlocks",
 		map[string]string{"bstream.GetProtocolFirstStreamableBlock": "fsb"}))
+	steps := p("steps.go")
+	b.WriteString(translateFuncT(steps.method("StepType", "Matches"), "stepMatches", nil, "Bool"))
+	b.WriteString(translateConsts(steps, []string{"StepNew", "StepUndo", "StepIrreversible", "StepStalled"}, "c"))
 	b.WriteString("end Gen\n")
 	b.WriteString("\nend BstreamVerif.Facts\n")
 	os.WriteFile(os.Args[2], []byte(b.String()), 0644)
